@@ -491,7 +491,10 @@ Proof.
   intros Ha Hd Hs H. destruct (get_storage_acc_kind _ _ _ _ Ha Hd) as [g [s [Hk [Hseq Hex]]]].
   destruct (Hex Hs) as [r Hr]. rewrite Hs, Hr in Hseq. subst s.
   unfold set_acc_result, d_set in H. rewrite Hk in H. exists r. split; auto.
-  destruct r as [|n|f]; inversion H; subst; split; auto; [right | right | left]; eauto.
+  destruct r as [|n|f]; inversion H; subst; (split; [reflexivity|]).
+  - right. auto.
+  - right. auto.
+  - left. eauto.
 Qed.
 
 Lemma set_hit_sim : forall h k o x sl v tr h' ok slu,
@@ -601,3 +604,177 @@ Proof.
       apply (IC_valid_put {| st_heap := h'; st_sites := st_sites stc |} SSet n k c1 Hv1). simpl. intros e He.
       eapply entry_ok_mono; eauto.
 Qed.
+
+(* ------------------------------------------------------------------------------------------- steps *)
+Local Transparent hit_store.
+
+Lemma hit_irr_get st kd s k ob (o : op) :
+  (o = OpGet s k ob /\ kd = SGet) \/ (o = OpGetGlobal s k /\ kd = SGlobal /\ ob = GLOBAL) ->
+  hit_irregular st o = false ->
+  forall x sl, get_obj (st_heap st) ob = Some x ->
+    fst (fst (ic_get (site_get (st_sites st) (kd, s, k)) (st_heap st) k (o_shape x))) = Some sl ->
+    get_regular (st_heap st) x sl.
+Proof.
+  intros Ho H x sl Hx Hi.
+  assert (H' : sf_is_accessor_descriptor (s_attrs sl) &&
+               (if sf_has_get (s_attrs sl) then
+                  match hit_store (st_heap st) x sl with
+                  | Some stg => match nthN stg (s_index sl) with Some (VNum _) => true | _ => false end
+                  | None => false
+                  end
+                else true) = false).
+  { destruct Ho as [[-> ->] | [-> [-> ->]]]; unfold hit_irregular in H; cbv beta iota zeta in H;
+      rewrite Hx, Hi in H; exact H. }
+  clear H. intro Ha. rewrite Ha in H'. simpl in H'. destruct (sf_has_get (s_attrs sl)); [|discriminate].
+  split; auto. intros stg n Hs Hn. rewrite Hs, Hn in H'. discriminate.
+Qed.
+
+Lemma hit_irr_set st s k ob v :
+  hit_irregular st (OpSet s k ob v) = false ->
+  forall x sl, get_obj (st_heap st) ob = Some x ->
+    fst (fst (ic_get (site_get (st_sites st) (SSet, s, k)) (st_heap st) k (o_shape x))) = Some sl -> set_regular sl.
+Proof.
+  intros H x sl Hx Hi. unfold hit_irregular in H. rewrite Hx, Hi in H.
+  intro Ha. rewrite Ha in H. simpl in H. destruct (sf_has_set (s_attrs sl)); [reflexivity | discriminate].
+Qed.
+
+Definition is_site_op (o : op) : bool :=
+  match o with OpGet _ _ _ | OpSet _ _ _ _ | OpGetGlobal _ _ => true | _ => false end.
+
+(* operations that do not run a site: same outputs, same heap, a monotone heap step; the caches are untouched or only
+   lose entries *)
+Lemma step_nonsite : forall o stc stu outs stu',
+  is_site_op o = false -> st_heap stc = st_heap stu ->
+  step false stu o = Some (outs, stu') ->
+  exists stc', step true stc o = Some (outs, stc') /\ st_heap stc' = st_heap stu' /\ umono (st_heap stc) (st_heap stc') /\
+    (st_sites stc' = st_sites stc \/
+     exists kd s k keep, o = OpEvict kd s k keep /\ st_heap stc' = st_heap stc /\
+       st_sites stc' = site_put (st_sites stc) (kd, s, k)
+         {| c_entries := filter_keep (c_entries (site_get (st_sites stc) (kd, s, k))) keep;
+            c_mega := c_mega (site_get (st_sites stc) (kd, s, k)) |}).
+Proof.
+  intros o stc stu outs stu' Hs Hh H.
+  destruct o; try discriminate Hs; unfold step in *; rewrite <- Hh in H; unfold with_heap in *.
+  - (* alloc *)
+    destruct (match proto with Some q => negb (N.ltb q (lenN (h_objs (st_heap stc)))) | None => false end).
+    + inversion H; subst. eexists; split; [reflexivity|]. simpl. auto using umono_refl.
+    + destruct unique.
+      * unfold new_ushape in *. inversion H; subst. eexists; split; [reflexivity|]. simpl. repeat split; auto.
+        apply umono_app.
+      * inversion H; subst. eexists; split; [reflexivity|]. simpl. repeat split; auto. apply umono_eq. reflexivity.
+  - destruct (get_obj (st_heap stc) o); [|inversion H; subst; eexists; split; [reflexivity|]; simpl; auto using umono_refl].
+    destruct (define_own_property (st_heap stc) o k d slot_new) as [[[h' sl] ok]|] eqn:E; [|discriminate].
+    inversion H; subst. eexists; split; [reflexivity|]. simpl. repeat split; auto. eapply dop_umono; eauto.
+  - destruct (get_obj (st_heap stc) o); [|inversion H; subst; eexists; split; [reflexivity|]; simpl; auto using umono_refl].
+    destruct (ordinary_delete (st_heap stc) o k) as [[h' ok]|] eqn:E; [|discriminate].
+    inversion H; subst. eexists; split; [reflexivity|]. simpl. repeat split; auto. eapply delete_umono; eauto.
+  - destruct (get_obj (st_heap stc) o); [|inversion H; subst; eexists; split; [reflexivity|]; simpl; auto using umono_refl].
+    destruct (ordinary_set_prototype_of (st_heap stc) o p) as [[h' ok]|] eqn:E; [|discriminate].
+    inversion H; subst. eexists; split; [reflexivity|]. simpl. repeat split; auto. eapply setproto_umono; eauto.
+  - destruct (get_obj (st_heap stc) o); [|inversion H; subst; eexists; split; [reflexivity|]; simpl; auto using umono_refl].
+    destruct (prevent_extensions (st_heap stc) o) as [h'|] eqn:E; [|discriminate].
+    inversion H; subst. eexists; split; [reflexivity|]. simpl. repeat split; auto. eapply prevent_umono; eauto.
+  - destruct (get_obj (st_heap stc) o); [|inversion H; subst; eexists; split; [reflexivity|]; simpl; auto using umono_refl].
+    destruct (freeze (st_heap stc) o) as [[h' ok]|] eqn:E; [|discriminate].
+    inversion H; subst. eexists; split; [reflexivity|]. simpl. repeat split; auto. eapply freeze_umono; eauto.
+  - destruct (get_obj (st_heap stc) o) as [x|]; [|inversion H; subst; eexists; split; [reflexivity|]; simpl; auto using umono_refl].
+    destruct (dump_props (o_store x) (shape_tab (st_heap stc) (o_shape x))); [|discriminate].
+    inversion H; subst. eexists; split; [reflexivity|]. simpl. auto using umono_refl.
+  - inversion H; subst. eexists; split; [reflexivity|]. simpl. repeat split; auto using umono_refl. right.
+    exists kind, s, k, keep. auto.
+Qed.
+
+Lemma sim_step : forall o stc stu outs_u stu',
+  IC_valid stc -> st_heap stc = st_heap stu -> hit_irregular stc o = false ->
+  step false stu o = Some (outs_u, stu') ->
+  exists outs_c stc', step true stc o = Some (outs_c, stc') /\
+    filter visible outs_c = filter visible outs_u /\ st_heap stc' = st_heap stu' /\ IC_valid stc'.
+Proof.
+  intros o stc stu outs_u stu' Hv Hh Hirr H.
+  destruct (is_site_op o) eqn:Hs.
+  - destruct o; try discriminate Hs; cbn [step] in *.
+    + destruct (sim_get false stc stu SGet s k o outs_u stu') as (oc & stc' & E & Hvis & Hc & Hu & Hv'); auto.
+      * discriminate.
+      * eapply hit_irr_get; eauto.
+      * exists oc, stc'. repeat split; auto. congruence.
+    + destruct (sim_set stc stu s k o v outs_u stu') as (oc & stc' & E & Hvis & Hc & Hv' & _); auto.
+      * eapply hit_irr_set; eauto.
+      * exists oc, stc'. repeat split; auto.
+    + destruct (sim_get true stc stu SGlobal s k GLOBAL outs_u stu') as (oc & stc' & E & Hvis & Hc & Hu & Hv'); auto.
+      * discriminate.
+      * eapply hit_irr_get; eauto.
+      * exists oc, stc'. repeat split; auto. congruence.
+  - destruct (step_nonsite o stc stu outs_u stu' Hs Hh H) as (stc' & E & Hheap & Hmono & Hsites).
+    exists outs_u, stc'. repeat split; auto.
+    destruct Hsites as [Hsame | (kd & s & k & keep & -> & Hh' & Hput)].
+    + destruct stc' as [h' ss']. simpl in *. subst ss'. apply IC_valid_heap_step; auto.
+    + destruct stc' as [h' ss']. simpl in Hh', Hput. rewrite Hput, Hh'.
+      apply (IC_valid_put stc kd s k _ Hv). simpl. intros e He. apply filter_keep_in in He.
+      eapply cache_entries_ok; eauto.
+Qed.
+
+Lemma run_sim : forall ops stc stu i,
+  IC_valid stc -> st_heap stc = st_heap stu -> first_irregular stc ops i = None ->
+  ~ In None (run false stu ops) ->
+  observable (run true stc ops) = observable (run false stu ops).
+Proof.
+  induction ops as [|o r IH]; intros stc stu i Hv Hh Hk Hnp; [reflexivity|].
+  cbn [run first_irregular] in *.
+  destruct (hit_irregular stc o) eqn:Hirr; [discriminate|].
+  destruct (step false stu o) as [[outs_u stu']|] eqn:Eu.
+  2:{ exfalso. apply Hnp. left. reflexivity. }
+  destruct (sim_step o stc stu outs_u stu' Hv Hh Hirr Eu) as (oc & stc' & Ec & Hvis & Hheap & Hv').
+  rewrite Ec in *. unfold observable in *. cbn [map]. rewrite Hvis. f_equal.
+  apply (IH stc' stu' (i + 1)); auto. intro Hin. apply Hnp. right. exact Hin.
+Qed.
+
+Lemma ic_transparent_lemma : forall ops,
+  ~ Irregular ops -> ~ In None (run_uncached ops) ->
+  observable (run_cached ops) = observable (run_uncached ops).
+Proof.
+  intros ops Hk Hnp. unfold run_cached, run_uncached.
+  apply (run_sim ops init init 0); auto using IC_valid_init.
+  unfold Irregular in Hk. destruct (first_irregular init ops 0); [exfalso; apply Hk; discriminate | reflexivity].
+Qed.
+
+(* every step keeps the invariant (stated for the cached run alone) *)
+Lemma IC_valid_step_lemma : forall o st outs st',
+  IC_valid st -> hit_irregular st o = false -> step false st o <> None -> step true st o = Some (outs, st') -> IC_valid st'.
+Proof.
+  intros o st outs st' Hv Hk Hu E.
+  destruct (step false st o) as [[ou su]|] eqn:Eu; [|contradiction].
+  destruct (sim_step o st st ou su Hv eq_refl Hk Eu) as (oc & stc' & Ec & _ & _ & Hv').
+  rewrite E in Ec. inversion Ec; subst. exact Hv'.
+Qed.
+
+(* ------------------------------------------------------------------------------------------- a history with hits *)
+Definition w_clean : list op :=
+  [OpAlloc false None; OpDefine 2 0 (dd (VNum 1) true true true); OpDefine 2 1 (da (VFun 1) (VFun 2) true true);
+   OpAlloc false (Some 2); OpAlloc false (Some 2); OpDefine 4 2 (dd (VNum 5) true true true);
+   OpGet 0 0 3; OpGet 0 0 3; OpGet 0 0 4; OpGet 0 0 4; OpGet 0 0 2; OpGet 0 0 2;
+   OpSet 0 1 3 (VNum 7); OpSet 0 1 3 (VNum 8);
+   OpSet 0 2 4 (VNum 6); OpSet 0 2 4 (VNum 9); OpGet 1 2 4; OpGet 1 2 4;
+   OpDelete 4 2; OpGet 1 2 4; OpDefine 4 3 (dd (VNum 3) true true true); OpGet 0 0 4;
+   OpDefine 2 0 (da (VFun 3) (VFun 4) true true); OpGet 0 0 3; OpGet 0 0 3; OpDelete 2 1; OpSet 0 1 3 (VNum 1);
+   OpDefine 1 0 (dd (VNum 4) true true true); OpGetGlobal 0 0; OpGetGlobal 0 0;
+   OpDefine 1 0 {| d_kind := KData None (Some false); d_enum := None; d_conf := None |}; OpSet 1 0 1 (VNum 5); OpGetGlobal 0 0;
+   OpAlloc false None; OpDefine 5 0 (dd (VNum 1) false true true);
+   OpAlloc false None; OpDefine 6 0 (dd (VNum 1) true false true);
+   OpAlloc true None; OpDefine 7 0 (dd (VNum 1) true true false);
+   OpGet 0 0 5; OpGet 0 0 6; OpGet 0 0 7; OpGet 0 0 2; OpDump 2; OpDump 4].
+Definition hits (r : list (option (list out))) : nat :=
+  length (filter (fun x => match x with
+                           | Some l => existsb (fun o => match o with OIC (EvHit :: _) => true | _ => false end) l
+                           | None => false end) r).
+Lemma clean_history_lemma : ~ Irregular w_clean /\ ~ In None (run_uncached w_clean) /\ hits (run_cached w_clean) = 8%nat.
+Proof.
+  split; [|split].
+  - unfold Irregular. vm_compute. intro H. apply H. reflexivity.
+  - vm_compute. intuition discriminate.
+  - vm_compute. reflexivity.
+Qed.
+
+Lemma set_keeps_shape_lookups_lemma : forall fuel h o k v r sl tr h' ok sl' s k' x,
+  ordinary_set fuel h o k v r sl = Some (tr, h', ok, sl') ->
+  lookup_shape h s k' = Some x -> lookup_shape h' s k' = Some x.
+Proof. intros. eapply lookup_stable; [eapply os_umono|]; eauto. Qed.
